@@ -1,6 +1,7 @@
 use std::fmt;
 use std::time::Duration;
 
+use crate::channel::ChannelObserver;
 use crate::executor::{Executor, Signal};
 use crate::ports::InputFn;
 use crate::simulation::{self, ActionKey, Address, GlobalScheduler, Mailbox, SchedulingError};
@@ -447,13 +448,13 @@ impl<M: Model> fmt::Debug for Context<M> {
 /// }
 ///
 /// ```
-#[derive(Debug)]
 pub struct BuildContext<'a, P: ProtoModel> {
     mailbox: &'a Mailbox<P::Model>,
     name: &'a String,
     scheduler: &'a GlobalScheduler,
     executor: &'a Executor,
     abort_signal: &'a Signal,
+    observers: &'a mut Vec<(String, Box<dyn ChannelObserver>)>,
     model_names: &'a mut Vec<String>,
 }
 
@@ -465,6 +466,7 @@ impl<'a, P: ProtoModel> BuildContext<'a, P> {
         scheduler: &'a GlobalScheduler,
         executor: &'a Executor,
         abort_signal: &'a Signal,
+        observers: &'a mut Vec<(String, Box<dyn ChannelObserver>)>,
         model_names: &'a mut Vec<String>,
     ) -> Self {
         Self {
@@ -473,6 +475,7 @@ impl<'a, P: ProtoModel> BuildContext<'a, P> {
             scheduler,
             executor,
             abort_signal,
+            observers,
             model_names,
         }
     }
@@ -517,7 +520,16 @@ impl<'a, P: ProtoModel> BuildContext<'a, P> {
             self.scheduler.clone(),
             self.executor,
             self.abort_signal,
+            self.observers,
             self.model_names,
         );
+    }
+}
+
+impl<P: ProtoModel> fmt::Debug for BuildContext<'_, P> {
+    fn fmt(&self, f: &mut fmt::Formatter<'_>) -> fmt::Result {
+        f.debug_struct("BuildContext")
+            .field("name", &self.name)
+            .finish_non_exhaustive()
     }
 }
